@@ -426,18 +426,17 @@ def _main(ctx: Ctx, srcs, quick: bool, model: bool = True):
         extra = [s for (u, s) in corpus if u == ident or (u == "current" and ident == "current")]
         if ident == "current":
             pl = payloads_for(ctx, ident, path, exhaustive=True, nrandom=2000 if quick else 6000,
-                              pairs=60000 if quick else "all", triples=20000 if quick else 200000,
+                              pairs=40000 if quick else "all", triples=20000 if quick else 200000,
                               slices=0 if quick else 3, extra_subsets=extra)
-            if quick:
-                pl[0]["pairs"] = 60000
         elif quick:
-            pl = payloads_for(ctx, ident, path, exhaustive=False, nrandom=150, pairs=3000, triples=1000, slices=0, extra_subsets=extra)
+            pl = payloads_for(ctx, ident, path, exhaustive=False, nrandom=150, pairs=2000, triples=1000, slices=0, extra_subsets=extra)
         else:
             pl = payloads_for(ctx, ident, path, exhaustive=True, nrandom=1500, pairs="all", triples=20000, slices=2, extra_subsets=extra)
         jobs.append((ident, uvar, pl))
     flat = [p for _, _, pl in jobs for p in pl]
     ctx.log(f"running {len(flat)} implementation workers")
     outs = parallel_workers("c12_impl", "observe", flat, timeout=900)
+    ctx.log("implementation done; oracle + case generation")
     k = 0
     acc = Acc()
     for ident, uvar, pl in jobs:
@@ -461,6 +460,7 @@ def _main(ctx: Ctx, srcs, quick: bool, model: bool = True):
         else:
             _oracle_only(ctx, ident, results)
     if model:
+        ctx.log(f"evaluating the model on {len(acc.g)} group, {len(acc.c)} conform, {len(acc.p)} pair, {len(acc.u)} universe cases")
         evaluate_model(ctx, acc)
 
 
